@@ -126,6 +126,36 @@ def inherit(rng, extend):
             "probes": True, "kind": "inherit_extend" if extend else "inherit_pure"}
 
 
+def bags(rng):
+    """Two unrelated classes whose models and listeners are objects of ONE class (attribute bags): each object carries its
+    own callbacks as instance attributes, so what one object provides says nothing about another object of that class."""
+    classes = []
+    for k in range(2):
+        d = gen.rand_def(rng, provs=("model", "l1"), dense=rng.choice([0.5, 0.9]), guards=rng.random() < 0.3,
+                         validators=False, events=EVS, styles=False, nstates=rng.randint(2, 3))
+        for cb in d["cbs"]:
+            cb["coro"] = False
+        if k == 1 and rng.random() < 0.4:
+            d["cbs"] = [cb for cb in d["cbs"] if cb["okind"] == "T"]    # a bare bag: no convention hooks at all
+        classes.append(d)
+    steps = []
+    order = [1, 2] if rng.random() < 0.5 else [2, 1]
+    slot = {}
+    for n, k in enumerate(order, start=1):
+        steps.append({"op": "new", "i": n, "cls": k, "opt": {"rtc": True, "allow": rng.random() < 0.3, "start": "", "budget": 2},
+                      "stored": "", "provs": ["sm", "model", "l1"], "model_kind": "bag", "gv": gen.rand_gv(rng)})
+        slot[n] = k
+        for _ in range(rng.randint(0, 2)):
+            i = rng.choice(list(slot))
+            steps.append({"op": "call", "i": i, "api": "send", "ev": rng.choice(classes[slot[i] - 1]["evlist"]),
+                          "gv": gen.rand_gv(rng)})
+    for _ in range(rng.randint(3, 8)):
+        i = rng.choice(list(slot))
+        steps.append({"op": "call", "i": i, "api": "send", "ev": rng.choice(classes[slot[i] - 1]["evlist"]), "gv": gen.rand_gv(rng)})
+    return {"classes": classes, "steps": steps, "script": {}, "failAt": [], "budget": 2, "ni": 3, "driver": "sync",
+            "probes": True, "bag_providers": True, "kind": "bags"}
+
+
 def featurize(scn, res, v):
     lines = res["lines"]
     k = v["matched"]
@@ -146,6 +176,7 @@ def run(pid, tier, seed, replay):
     scns = [multi(rng, collide=False) for _ in range(n)] + [multi(rng, collide=True) for _ in range(n)]
     scns += [inherit(rng, extend=False) for _ in range(n // 2)]
     scns += [inherit(rng, extend=True) for _ in range(20 if quick else 200)]
+    scns += [bags(rng) for _ in range(n // 2)]
     rng.shuffle(scns)
     # the two-instance exhaustive model: all interleavings of two machines of one small definition
     ec.run_validate(chk, scns, "isolation: programs", shards=5 if quick else 12, featurize=featurize)
